@@ -1,6 +1,6 @@
 (* Wire-level dispatch: function id -> decoder -> model function -> encoder.
    The harness reads the `fn_*` table below (single source of the ids).  Glue only. *)
-From SG Require Import Base.Prelude Base.Val Base.NumpyPrims Model.Pairs Model.Groups Model.Estimators Model.Sparse Model.Binning.
+From SG Require Import Base.Prelude Base.Val Base.NumpyPrims Model.Pairs Model.Groups Model.Estimators Model.Sparse Model.Binning Model.Kriging Model.Jackknife.
 
 Definition fn_pairs : Z := 1.
 Definition fn_groups : Z := 2.
@@ -20,6 +20,26 @@ Definition fn_even : Z := 15.
 Definition fn_uniform : Z := 16.
 Definition fn_mid_edges : Z := 17.
 Definition fn_auto_edges : Z := 18.
+Definition fn_find_closest_dense : Z := 19.
+Definition fn_closest : Z := 20.
+Definition fn_ok_matrix : Z := 21.
+Definition fn_estimate : Z := 22.
+Definition fn_variance : Z := 23.
+Definition fn_transform : Z := 24.
+Definition fn_squareform : Z := 25.
+Definition fn_mse : Z := 26.
+Definition fn_mae : Z := 27.
+Definition fn_delete : Z := 28.
+
+(* one target result on the wire: [z sigma] or a failure code z1 (no points) z2 (singular) z3 (ill) *)
+Definition getResult (v : val) : option target_result :=
+  match v with
+  | VL [a; b] => do z <- getQ a; do sg <- getQ b; Some (inl (z, sg))
+  | VZ 1%Z => Some (inr NoPoints)
+  | VZ 2%Z => Some (inr Singular)
+  | VZ 3%Z => Some (inr IllMatrix)
+  | _ => None
+  end.
 
 (* maxlag form on the wire: n = None, z1 = 'median', z2 = 'mean', q.. = value *)
 Definition getForm (v : val) : option maxlag_form :=
@@ -64,6 +84,20 @@ Definition run_fn (f : Z) (a : list val) : option val :=
             Some (ofList (ofOpt ofQ) (uniform n D M))
   | 17%Z => do c <- getList getQ (arg a 0); Some (ofList ofQ (mid_edges c))
   | 18%Z => do k <- getN (arg a 0); do lo <- getQ (arg a 1); do hi <- getQ (arg a 2); Some (ofList ofQ (auto_edges k lo hi))
+  | 19%Z => do row <- getList getQ (arg a 0); do m <- getOpt getQ (arg a 1); do N <- getN (arg a 2);
+            Some (ofList ofN (find_closest_dense row m N))
+  | 20%Z => do c <- getList getEntry (arg a 0); do N <- getN (arg a 1); Some (ofList ofN (closest c N))
+  | 21%Z => do g <- getList getQ (arg a 0); do n <- getN (arg a 1); Some (ofList (ofList ofQ) (ok_matrix g n))
+  | 22%Z => do l <- getList getQ (arg a 0); do v <- getList getQ (arg a 1); Some (ofQ (estimate l v))
+  | 23%Z => do l <- getList getQ (arg a 0); do b <- getList getQ (arg a 1); Some (ofQ (variance l b))
+  | 24%Z => do rs <- getList getResult (arg a 0);
+            let s := transform rs in
+            Some (VL [ofList (ofOpt ofQ) (zs s); ofList (ofOpt ofQ) (sigmas s);
+                      ofN (n_nopoints s); ofN (n_singular s); ofN (n_ill s)])
+  | 25%Z => do g <- getList getQ (arg a 0); do n <- getN (arg a 1); Some (ofList (ofList ofQ) (squareform 0%Q g n))
+  | 26%Z => do r <- getList (getOpt getQ) (arg a 0); Some (ofOpt ofQ (mse r))
+  | 27%Z => do r <- getList (getOpt getQ) (arg a 0); Some (ofOpt ofQ (mae r))
+  | 28%Z => do i <- getN (arg a 0); do l <- getList getQ (arg a 1); Some (ofList ofQ (delete i l))
   | _ => None
   end.
 
